@@ -36,6 +36,8 @@ pub fn pool() -> Vec<(String, String)> {
     v.push(("empty".into(), ";".into()));
     v.push(("annotation".into(), "@verif note\n".into()));
     v.push(("include".into(), "include \"stdgates.inc\";".into()));
+    v.push(("version".into(), "OPENQASM 3.0;".into()));
+    v.push(("version_major".into(), "OPENQASM 3;".into()));
     v.push(("return".into(), "return a;".into()));
     v.push(("return_void".into(), "return;".into()));
     v.push(("ident_stmt".into(), "a;".into()));
@@ -310,6 +312,9 @@ impl Space for Seqs {
                 idx[p] = 0;
             }
         }
+    }
+    fn block_timeout_s(&self) -> u64 {
+        300
     }
     fn replay(&self, case: &Value, ctx: &mut Ctx) {
         let names: Vec<String> = case["parts"].as_array().map(|a| a.iter().filter_map(|v| v.as_str().map(|s| s.to_string())).collect()).unwrap_or_default();
